@@ -1429,9 +1429,10 @@ impl<'a> Parser<'a> {
             return false;
         }
 
-        // Look ahead to find comma before ParenEnd
+        // Look ahead to find comma before ParenEnd. The scan must reach the matching
+        // ParenEnd however long the first element is, so it is bounded by Eof only.
         let mut depth = 0;
-        for i in 1..MAX_LOOKAHEAD {
+        for i in 1.. {
             match self.peek_ahead(i) {
                 Some(TokenKind::ParenBegin) => depth += 1,
                 Some(TokenKind::ParenEnd) => {
